@@ -21,6 +21,14 @@ claimed = {
    text="Proof: n == len(p) on success for the zap writers under contract, Lock/AddSync/NewMultiWriteSyncer relay and wrapping rules, multi-WriteSyncer: same bytes to every sink, minimum count, all errors folded, Sync reaches every sink (loop invariants over a ghost call log, any number of sinks and outcome vectors).",
    note=BASE_NOTE + "User sinks are arbitrary (n, err) under the encapsulation rely; mutual exclusion for all interleavings follows from the proved lock discipline only by the (unmechanised) lock-invariant meta-theorem.",
    ref="7 (C13)"),
+ "C07": dict(
+   text="Proof of the derivation mechanisms with full frames: Logger.clone/With/Named/WithOptions/Sugar/Desugar write only the freshly allocated clone (*log == old(*log)), With(no fields) returns the receiver, Named joins with a dot exactly when both names are non-empty; Logger.check stamps the entry with the logger's own name and hands call-site fields on unchanged; every zap Core.With implementation under contract (tee, sampler, hooked, level-filter, lazy, observer) is verified against the Core.With interface contract (result non-nil, no pre-existing Field, Core slice or byte array written), forwards exactly the given fields to the wrapped core and re-wraps it leaving the receiver unchanged; the observer's capacity-capped append leaves the parent's context array untouched (both append branches explored); the lazy core evaluates its With exactly once (sync.Once model) with the original fields.",
+   note=BASE_NOTE + "ioCore.With (encoder Clone + addFields), Logger.WithLazy's option closure and the sugared With/Named/WithLazy wrappers are not yet under contract; the byte-level statement 'context bytes = parent bytes ++ enc(fields)' is part of the C01/C02 encoder contracts, not proved here. 'All orders of derivation and use' follows from the frames (no derivation writes a location reachable from another logger) - a paper step over the proved frames.",
+   ref="7 (C07)"),
+ "C09": dict(
+   text="Proof of the synchronisation discipline, per function, on every path: guarded-by obligations at every load/store of _globalL/_globalS (under _globalMu), sinkRegistry.factories and _encoderNameToConstructor (under their mutexes), ObservedLogs.logs, BufferedWriteSyncer.{initialized,stopped,writer}; a coverage scan fails the check if any zap function touching a guarded location is not under contract; lock balance (Lock requires not held, Unlock requires held, released at every return incl. deferred unlocks); no blocking channel operation while BufferedWriteSyncer.mu is held (Stop, flushLoop); stop channel closed at most once (stopped <=> closed(stop)); lazyWithCore.core is stored only inside the Once.Do function and loaded only after the Once completed on the same path; Enabled reads only the immutable originalCore; no-panic (nil, index, type-assertion, close safety) for all these functions.",
+   note=BASE_NOTE + "There is no interleaving semantics: data-race freedom of the guarded state follows from the proved discipline only by the (unmechanised) lock-invariant soundness theorem and the Go memory model; deadlock freedom is covered only as 'no blocking under zap's own locks'; Logger/SugaredLogger immutability-after-publish, atomics-only access to counters and AtomicLevel, and the slog handler are not yet covered by obligations. sync.Mutex/RWMutex/Once are modelled (contracts/std/sync.spec).",
+   ref="7 (C09)"),
  "C03": dict(
    text="Proof: every typed constructor of package zap (69 functions: scalars, pointer variants, slice wrappers, NamedError/Error, Reflect/Stringer/Object/Inline/Namespace/Skip) yields exactly the tagged-union field its documentation announces, for all values of the parameter type (bit-vector arithmetic for every cast); pointer variants give the explicit-null field for nil; Field.Equals never panics on well-formed fields (comparability obligations on ==).",
    note=BASE_NOTE + "zap.Any's 80-way dispatch (interface method call through a generic function value) is outside the executor's subset: its contract is marked trusted and NOT counted as proved; Time/Timep/Stack/Dict/generic slice constructors and zapfield are not under contract yet; Equals' reflexivity/symmetry are not proved (reflect.DeepEqual and NaN payloads).",
